@@ -233,8 +233,8 @@ func c03Decode(c *Ctx) {
 		xb, _ := ana.MatchX(c.P, "obj(alloc<math/big.Int>, call<(*math/big.Int).And>(self, $dec, obj(alloc<math/big.Int>, call<(*math/big.Int).Lsh>(self, $one, conv<uint>($n)), call<(*math/big.Int).Sub>(self, self, $one))))", bd["$x"])
 		r.Check(okX && xb["$n"].String() == nT.String(), "C03.checksum-gate.mask", c.ipos(e.Instr), "decoded checksum = decoder AND (1<<n - 1) with the same n as the recomputation")
 		if okX {
-			one, w, _ := c.globalInit("pkg/bip39", "bigOne")
-			r.Check(one != nil && one.String() == "call<math/big.NewInt>(1)" && w == 1, "C03.checksum-gate.one", "", "the constant used to build the mask is 1 with a single writer")
+			// the variable holding 1 is folded into its value (ana.ConstGlobal: single writer, the initialiser)
+			r.Check(xb["$one"] != nil && xb["$one"].String() == "call<math/big.NewInt>(1)", "C03.checksum-gate.one", "", "the constant used to build the mask is 1: %s", xb["$one"])
 		}
 		// n = wordCountToEntropyBits(len)/32 ; bytes = bits/8 ; helper is 32*n/3
 		nb, okN := ana.Match("bin</>(call<*>(len(p0)), 32)", nT)
@@ -389,8 +389,11 @@ func c03Encode(c *Ctx) {
 		cnt, _ := wl.Members["Count"].(*ssa.NamedConst)
 		r.Check(ib != nil && cnt != nil && ib.Value.Int64() == 11 && cnt.Value.Int64() == 2048, "C03.bit-layout.constants", "", "wordlist.IndexBits=11, wordlist.Count=2048")
 	}
-	mask, w, g := c.globalInit("pkg/bip39", "wordIndexMask")
-	r.Check(mask != nil && mask.String() == "call<math/big.NewInt>(2047)" && w == 1, "C03.bit-layout.mask", c.P.Pos(g.Pos()), "word index mask = 2^11-1 with a single writer: %s", mask)
+	if mask, w, g := c.globalInit("pkg/bip39", "wordIndexMask"); g != nil {
+		r.Check(mask != nil && mask.String() == "call<math/big.NewInt>(2047)" && w == 1, "C03.bit-layout.mask", c.P.Pos(g.Pos()), "word index mask = 2^11-1 with a single writer: %s", mask)
+	} else {
+		r.OK("C03.bit-layout.mask", "", "the mask 2^11-1 is decided as the folded value in C03.bit-layout.encode-word")
+	}
 
 	// the per-word store — in EntropyToMnemonic itself or in a helper it hands the number and the word count to
 	nStore := 0
@@ -437,7 +440,7 @@ func c03Encode(c *Ctx) {
 					r.Viol("C03.bit-layout.bits-to-word-count", c.ipos(st), "word slice is not make(Mnemonic, f(len(entropy)*8)): %s", short(words.String(), 200))
 				}
 				vt := b.Of(st.Val, st)
-				pat := "call<(repo/pkg/bip39/wordlist.List).Word>(load(global<repo/pkg/bip39.wordList>), conv<int>(call<(*math/big.Int).Int64|(*math/big.Int).Uint64>(obj(call<math/big.NewInt>(0), call<(*math/big.Int).And>(self, $E, load(global<repo/pkg/bip39.wordIndexMask>)), ...))))"
+				pat := "call<(repo/pkg/bip39/wordlist.List).Word>(load(global<repo/pkg/bip39.wordList>), conv<int>(call<(*math/big.Int).Int64|(*math/big.Int).Uint64>(obj(call<math/big.NewInt>(0), call<(*math/big.Int).And>(self, $E, call<math/big.NewInt>(2047)), ...))))"
 				vb, okV := ana.Match(pat, vt)
 				if !okV {
 					r.Viol("C03.bit-layout.encode-word", c.ipos(st), "stored word is not wordList.Word(int(bigEntropy & mask)): %s", short(vt.String(), 300))
